@@ -1,15 +1,12 @@
 CONSTANTS
   PathDot = "fixed"
   AnyQuote = "fixed"
+  KeyDefaults = "count"
   Alpha = {97, 32, 37, 63, 35, 59, 43, 233, 8364, 10, 50}
-  MaxText = 2
+  MaxText = 1
   Shapes = {1, 2, 3, 4, 5, 6, 7, 8}
   ConvIds = {1, 2, 3, 4, 5, 6, 7, 8, 9, 10, 11, 12}
-  BindIds = {1, 2, 3, 4, 5, 6, 7}
-  Scripts = {1, 2, 3}
+  Binds = {11, 22, 63, 33, 72}
 INIT Init
-NEXT NoNext
-INVARIANT Law0
-INVARIANT Law1
-INVARIANT Law2
-INVARIANT Law3
+NEXT Next
+INVARIANT Laws
